@@ -1,6 +1,8 @@
 import Lean.Data.Json
 import AdeuModel.Model.Str
 import AdeuModel.Model.Diff
+import AdeuModel.Model.Trim
+import AdeuModel.Model.Init
 /-
 Line protocol driver: one JSON object per input line, one JSON result per output line.
 Imports model files only (never Lemmas/Props), so it can be compiled to a native executable.
@@ -41,11 +43,126 @@ def handleDiff (j : Json) : Except String Json := do
       ("sorted", toJson (sortedFromB 0 es)),
       ("targets_at", toJson (targetsAtB orig es))])]
 
+
+/-! ### trim -/
+def handleTrim (j : Json) : Except String Json := do
+  let t ← getStr j "t"
+  let n ← getStr j "n"
+  let (p, s) := Trim.trim Trim.pyIsSpace t n
+  pure <| Json.mkObj [("p", toJson p), ("s", toJson s)]
+
+def handleIsSpace (j : Json) : Except String Json := do
+  -- returns the code points (below `hi`) that the model's table classifies as whitespace
+  let hi ← j.getObjValAs? Nat "hi"
+  let xs := (List.range hi).filter fun n => Trim.pyIsSpace (Char.ofNat n) && (Char.ofNat n).toNat == n
+  pure <| Json.mkObj [("spaces", toJson xs)]
+
+/-! ### init -/
+partial def parseJ (j : Json) : Except String J := do
+  let t ← j.getObjValAs? String "t"
+  match t with
+  | "null" => pure .null
+  | "bool" => pure (.bool (← j.getObjValAs? Bool "b"))
+  | "num" => pure (.num (← j.getObjValAs? String "r").toList)
+  | "str" => pure (.str (← j.getObjValAs? String "s").toList)
+  | "arr" => do
+      let xs ← j.getObjValAs? (Array Json) "xs"
+      pure (.arr (← xs.toList.mapM parseJ))
+  | "obj" => do
+      let kvs ← j.getObjValAs? (Array Json) "kvs"
+      let l ← kvs.toList.mapM fun kv => do
+        let k ← kv.getObjValAs? String "k"
+        let v ← kv.getObjVal? "v"
+        pure (k.toList, ← parseJ v)
+      pure (.obj l)
+  | _ => throw s!"bad J tag {t}"
+
+def hexVal (c : Char) : Nat :=
+  if '0' ≤ c ∧ c ≤ '9' then c.toNat - 48 else if 'a' ≤ c ∧ c ≤ 'f' then c.toNat - 87 else 0
+
+def unhex : List Char → Init.Bytes
+  | a :: b :: r => (hexVal a * 16 + hexVal b).toUInt8 :: unhex r
+  | _ => []
+
+def bytesOf (j : Json) (k : String) : Except String Init.Bytes := do
+  let a ← j.getObjValAs? String k
+  pure (unhex a.toList)
+
+def parsePrior (j : Json) : Except String Init.Prior := do
+  let kind ← j.getObjValAs? String "kind"
+  match kind with
+  | "absent" => pure .absent
+  | "undecodable" => pure (.undecodable (← bytesOf j "raw"))
+  | "blank" => pure (.blank (← bytesOf j "raw"))
+  | "invalid" => pure (.invalid (← bytesOf j "raw"))
+  | "value" => do
+      let v ← j.getObjVal? "v"
+      pure (.value (← bytesOf j "raw") (← parseJ v))
+  | _ => throw s!"bad prior kind {kind}"
+
+def hexOf (l : Init.Bytes) : String :=
+  String.ofList (l.flatMap fun x => [J.hexDigit (x.toNat / 16), J.hexDigit (x.toNat % 16)])
+
+def bytesJ (b : Option Init.Bytes) : Json :=
+  match b with
+  | none => Json.null
+  | some l => Json.str (hexOf l)
+
+def stJ (s : Init.St) : Json :=
+  Json.mkObj [("cfg", bytesJ s.cfg), ("bak", bytesJ s.bak), ("dir", toJson s.dir)]
+
+def outcomeStr : Init.Outcome → String
+  | .ok => "ok" | .unicodeError => "UnicodeDecodeError" | .attributeError => "AttributeError"
+  | .typeError => "TypeError"
+
+def findCrash (cmpDir : Bool) (obs : Init.St) : Init.St → List Init.Op → Nat → Option Nat
+  | s, ops, k =>
+    if s.cfg == obs.cfg && s.bak == obs.bak && (!cmpDir || s.dir == obs.dir) then some k
+    else match ops with
+      | [] => none
+      | op :: r => findCrash cmpDir obs (Init.step s op) r (k + 1)
+
+def parseSt (j : Json) : Except String Init.St := do
+  let optB (k : String) : Except String (Option Init.Bytes) :=
+    match j.getObjVal? k with
+    | .ok Json.null => pure none
+    | .ok _ => do pure (some (← bytesOf j k))
+    | .error _ => pure none
+  pure { cfg := ← optB "cfg", bak := ← optB "bak", dir := (j.getObjValAs? Bool "dir").toOption.getD true }
+
+def handleInitOp (j : Json) : Except String Json := do
+  let mode ← j.getObjValAs? String "mode"
+  let entry ← match mode with
+    | "local" => do pure (Init.localEntry (← getStr j "python") (← getStr j "cwd"))
+    | _ => pure Init.prodEntry
+  let prior ← parsePrior (← j.getObjVal? "prior")
+  let (ops, out) := Init.handleInit entry prior
+  let fin := Init.exec (Init.initSt prior) ops
+  let cmpDir := (j.getObjValAs? Bool "cmp_dir").toOption.getD false
+  let obsArr := (j.getObjValAs? (Array Json) "observed").toOption.getD #[]
+  let found ← obsArr.toList.mapM fun o => do
+    let st ← parseSt o
+    pure (match findCrash cmpDir st (Init.initSt prior) ops 0 with
+      | some k => toJson k
+      | none => Json.null)
+  -- theorem instances evaluated on this case
+  let crashSafe := match prior.raw with
+    | none => true
+    | some c => (List.range (ops.length + 1)).all fun k =>
+        let s := Init.crashAfter entry prior k
+        s.cfg == some c || s.bak == some c
+  pure <| Json.mkObj [("outcome", toJson (outcomeStr out)), ("nops", toJson ops.length),
+    ("final", stJ fin), ("found", Json.arr found.toArray),
+    ("concl", Json.mkObj [("crash_safe_all_k", toJson crashSafe)])]
+
 def handle (j : Json) : Except String Json := do
   let op ← j.getObjValAs? String "op"
   match op with
   | "ping" => pure (Json.mkObj [("pong", toJson true)])
   | "diff" => handleDiff j
+  | "trim" => handleTrim j
+  | "isspace" => handleIsSpace j
+  | "init" => handleInitOp j
   | _ => throw s!"bad-op {op}"
 
 partial def loop (h : IO.FS.Stream) (out : IO.FS.Stream) : IO Unit := do
